@@ -71,6 +71,21 @@ CHECKS.update({
          "Every directed graph with self-loops on up to 4 module files (module 0 the main file) x import order x probe variants is written as real files and executed through LoadFile; a reachable cycle must give circular-dependency error 63, otherwise the exact load order (each body once, dependencies first), the call traces through imported methods and the read-only / not-exported / selective-import probes must match what the graph implies.",
          "Trusted: the graph oracle (DFS reachability/cycle, deterministic load order). More than 4 files and repeated imports in one file are not covered.",
          "DESIGN.md §4 C15"),
+ "C04": ("exploration",
+         "bounded exhaustive enumeration (E1): all 0x110000 code points, all strings up to the bound over the numeric and keyword-collision alphabets, against reference recognisers",
+         "Identifier alphabet: every code point, lookup vs the range table extracted from the current source, and through the lexer. Numeric form: every string up to length L over the recogniser's input classes (and a concrete digit alphabet) against a chapter-5 reference with exact big.Rat rounding. Keyword segmentation: every string up to the bound over three collision alphabets against a chapter-1 reference tokenizer.",
+         "Trusted: the reference recognisers written from manual ch.1/ch.5, math/big. Documented-vs-implemented disagreements outside the statement (.12, --123) are dont_care.",
+         "DESIGN.md §4 C04"),
+ "C11": ("model_checking",
+         "stateless deviation-bounded DFS (E3) over hash-map iteration orders injected through a build overlay generated from the current source",
+         "Every range-over-map site of the interpreter (found with go/types at check time) is rewritten through go build -overlay into a harness-chosen key order; for each driver program every order vector with at most d non-sorted iterations is executed on the real interpreter and all executions must agree on result, trace and rendered error.",
+         "Trusted: the overlay generator (sites it cannot see would be uncontrolled; its inventory is in evidence). Only map order is controlled, the source the statement names.",
+         "DESIGN.md §4 C11"),
+ "C16": ("model_checking",
+         "history search over polluter sequences with a fresh-process differential oracle (E2) + stateless exploration of all interleavings of concurrent requests under a cooperative scheduler (E3)",
+         "Sequential: all singles and pairs (triples in thorough) of polluter programs, through a shared interpreter and through fresh ones, followed by a 12-probe vector that must equal the vector of a fresh process. Concurrent: every ordered pair of 11 requests through the real handlers sharing one interpreter under every interleaving of the statement-level scheduling points (triples below a deviation bound); each response must equal the response alone.",
+         "Trusted: scheduling points at Execute/statement/显示 granularity (hooks, tag verif); finer races only through the auxiliary -race pass in thorough.",
+         "DESIGN.md §4 C16"),
 })
 NOT_YET = {}
 props = [json.loads(l) for l in open(f"{V}/properties.jsonl")]
